@@ -74,7 +74,7 @@ SPEC = {
                   "handler whose load-compare-save is one critical section, the stored safe point never decreases and every "
                   "response is >= every value acknowledged before the request began; the critical section is re-extracted "
                   "from server/grpc_service.go on every run (handler_is_atomic); cluster_safepoint_counterexample shows the "
-                  "4-step race of the unlocked handler. Theorems min_not_above_live, below_min_not_recorded, "
+                  "4-step race of the unlocked handler. Theorems min_not_above_live, below_min_not_recorded, del_keeps_gc_worker, usp_keeps_gc_worker, "
                   "gc_worker_always_present_infinite, expired_or_nonpositive_ttl_gone, invalid_id_never_recorded, "
                   "service_safepoints_hold: for every table, request, time and (where stated) failing write. The model is "
                   "tied to the handlers by differential execution on an in-process server (gated schedules exhaustively "
